@@ -132,6 +132,37 @@ theorem C15_redial (S : Strs) (cfg : Cfg) (s : State) (p : Nat) (pool : Pool) (h
     rw [getElem?_setAt]; simp [hp]
 
 
+/-- **a node leaves the topology** (`ticker`: `Pool.Close`, pool deleted): every pooled connection of the node gets
+    a close task, queued behind the write signals already pending (same FIFO queue); nothing else changes. When the
+    poller runs that task it is `backendClose` (`C15_close_fails_all`: everything in flight or queued on it fails);
+    the node's slots are rejected from then on (no pool). `C15_no_orphan` covers histories with such removals. -/
+theorem C15_pool_removed (s : State) (p : Nat) (pool : Pool) (hp : s.pools[p]? = some pool) (hr : pool.removed = false) :
+    (poolRemove s p).tasks = s.tasks ++ pool.active.map Task.close ∧
+    (poolRemove s p).msgs = s.msgs ∧ (poolRemove s p).clients = s.clients ∧ (poolRemove s p).backends = s.backends ∧
+    (poolRemove s p).pools[p]? = some { pool with removed := true, active := [] } := by
+  unfold poolRemove
+  rw [hp]
+  simp only [hr, Bool.false_eq_true, ↓reduceIte, true_and]
+  show (setAt s.pools p _)[p]? = _
+  rw [getElem?_setAt]; simp [hp]
+
+theorem C15_close_task (S : Strs) (cfg : Cfg) (s : State) (b : Nat) :
+    runTask S cfg (backendClose S) s (.close b) = backendClose S s b := rfl
+
+/-- a removed pool is never found again: requests for the node's slots are answered with the no-pool error -/
+theorem C15_removed_not_found (pools : List Pool) (addr : Bytes) (p : Nat) (pool : Pool) (h : findPool pools addr = some p)
+    (hp : pools[p]? = some pool) : pool.removed = false := by
+  unfold findPool at h
+  have := List.findIdx?_eq_some_iff_getElem.mp h
+  obtain ⟨hlt, hpred, _⟩ := this
+  have : pools[p] = pool := by
+    have := List.getElem?_eq_some_iff.mp hp
+    exact this.2
+  rw [this] at hpred
+  have := hpred
+  simp at this
+  exact this.2
+
 /- non-vacuity, kernel-evaluated on the model with the real tables: GET a is written to node m, GET a again is
    still queued; the connection is lost: both are answered with the error, in order; the next GET dials a new
    connection (backend 1) and is served -/
